@@ -591,6 +591,11 @@ func (a *c06) callResult(c *ssa.Call, i int, out *[]c06leaf) {
 }
 
 func runC06(c *an.Ctx) {
+	// ---- R4: an upstream reply is accepted only when it matches this query (shared with C17-R4)
+	c.Floor("C06-R4", 2)
+	c.Borrow("C06-R4", runC17, func(o an.Obligation) bool {
+		return o.Rule == "C17-R4" && (strings.Contains(o.Key, ").Exchange") || strings.Contains(o.Key, "readValidMsg") || strings.Contains(o.Key, "validatePlainResponse"))
+	})
 	sharedCodecNames(c, "C06-R3", func(fn *ssa.Function) bool {
 		k := an.FnKey(fn)
 		return strings.HasPrefix(k, "dnsserver.") || strings.HasPrefix(k, "dnsserver/forward.") || strings.HasPrefix(k, "bindtodevice.")
